@@ -11,6 +11,6 @@ CONSTANTS
   Ops = {"hdr", "data", "rst", "finish", "credit", "defect-nocredit"}
   EmitOneIn = 0
 VIEW View
-INVARIANTS C08_Reaction C01_DispatchOnce C01_DispatchLegal C01_EndOnce C10_GoAwayTruth C13_Slots C13_OpenIsSlots C14_ConnCredit
+INVARIANTS C08_Reaction C01_DispatchOnce C01_DispatchLegal C01_EndOnce C10_GoAwayTruth C13_Slots C13_OpenIsSlots C14_ConnCredit C14_StreamCredit
 CONSTRAINT EmitState
 CHECK_DEADLOCK FALSE
